@@ -23,6 +23,7 @@ import (
 	"path/filepath"
 	"runtime"
 	"sort"
+	"strings"
 	"sync"
 	"sync/atomic"
 
@@ -1225,6 +1226,58 @@ func raceCtl(rng *rand.Rand, kind string) (plan []act) {
 	return append(plan, r)
 }
 
+// raceParked: consumers already asleep in Pop when the producers come.
+//
+//	"take": 1-2 consumers parked on the empty open queue, then 1-2 adds racing 1-2 Pops of OTHER
+//	        consumers (a woken sleeper may find the item gone: it must go back to sleep, not answer);
+//	"feed": k consumers parked, then m adds issued together (m < k, m = k, m > k): after quiescence
+//	        exactly min(k, m) of them returned, with distinct items, the others still sleep.
+func raceParked(rng *rand.Rand, kind string, take bool) (plan []act) {
+	id := 0
+	add := func() qa.Act {
+		id++
+		lane := "req"
+		if kind == "mq" && rng.Intn(3) == 0 {
+			lane = "ctrl"
+		}
+		return qa.Act{Op: "add", Lane: lane, Prior: kind != "syncq" && rng.Intn(4) == 0, V: id}
+	}
+	pop := func() qa.Act { return qa.Act{Op: "pop", Any: kind == "syncq" || rng.Intn(2) == 0} }
+	k := 1 + rng.Intn(3)
+	if take {
+		k = 1 + rng.Intn(2)
+	}
+	for c := 1; c <= k; c++ {
+		plan = append(plan, act{Act: pop(), C: c})
+	}
+	for round := 0; round < 2; round++ { // a second race on the same queue while it is still open
+		r := act{Act: qa.Act{Op: "race"}}
+		m := 1 + rng.Intn(3)
+		if take {
+			m = 1 + rng.Intn(2)
+		}
+		for j := 0; j < m; j++ {
+			r.Acts, r.RC = append(r.Acts, add()), append(r.RC, 0)
+		}
+		if take {
+			for c, n := nCons, 1+rng.Intn(2); n > 0 && len(r.Acts) < 4; c, n = c-1, n-1 {
+				r.Acts, r.RC = append(r.Acts, pop()), append(r.RC, c) // consumers 4, 3: not the sleepers
+			}
+		}
+		if len(r.Acts) < 2 { // a race needs two calls: a single add is an ordinary step
+			plan = append(plan, act{Act: r.Acts[0]})
+			continue
+		}
+		rng.Shuffle(len(r.Acts), func(i, j int) {
+			r.Acts[i], r.Acts[j] = r.Acts[j], r.Acts[i]
+			r.RC[i], r.RC[j] = r.RC[j], r.RC[i]
+		})
+		r.Delay = skews(rng, len(r.Acts))
+		plan = append(plan, r)
+	}
+	return plan
+}
+
 // racePri: a (nearly) full queue, a consumer that holds the token and Pops, together with Len()
 // pollers, pushers (rejected when full) and other poppers.
 func racePri(rng *rand.Rand, rcap int) (plan []act) {
@@ -1333,7 +1386,8 @@ func main() {
 	nrace := flag.Int("race", 0, "race rounds per list-queue type")
 	nprace := flag.Int("prace", 0, "priq race rounds")
 	nbatch := flag.Int("batch", 20, "worlds per lock-step batch")
-	ctlonly := flag.Bool("ctlonly", false, "race rounds: only {close | try-close | try-clear} x adds (used by C12)")
+	rounds := flag.String("rounds", "enter,ctl,take,feed", "kinds of race rounds: enter (consumers entering Pop x close/adds), "+
+		"ctl ({close|try-close|try-clear} x adds), take (sleepers, adds x other Pops), feed (k sleepers, m adds)")
 	npstress := flag.Int("npstress", 0, "additional priq stress runs")
 	flag.Parse()
 	rng := rand.New(rand.NewSource(*seed))
@@ -1406,6 +1460,7 @@ func main() {
 		}
 		queue(spec{"scenario", kind, 0, rcap, rng.Intn(4), plan})
 	}
+	sel := strings.Split(*rounds, ",")
 	for i := 0; i < *nrace; i++ {
 		for _, kind := range kinds {
 			rcap := []int{0, 0, 1, 2}[rng.Intn(4)]
@@ -1413,9 +1468,14 @@ func main() {
 				rcap = 0
 			}
 			rep := rng.Intn(4)
-			if i%2 == 0 && !*ctlonly {
+			switch sel[i%len(sel)] {
+			case "enter":
 				queue(spec{"race", kind, 0, rcap, rep, raceList(rng, kind)})
-			} else {
+			case "take":
+				queue(spec{"racetake", kind, 0, rcap, rep, raceParked(rng, kind, true)})
+			case "feed":
+				queue(spec{"racefeed", kind, 0, rcap, rep, raceParked(rng, kind, false)})
+			default:
 				queue(spec{"racectl", kind, 0, rcap, rep, raceCtl(rng, kind)})
 				if kind == "mq" { // three life-ending calls instead of one: proportionally more rounds
 					queue(spec{"racectl", kind, 0, rcap, rep, raceCtl(rng, kind)})
